@@ -273,6 +273,27 @@ export function f1Depth2() {
   return out;
 }
 
+// F1x: intersections and unions of object literals that overlap on their keys in every combination of
+// {absent, required, optional} x {same type, other type}: the compile-time merge of intersections
+export function f1Overlap() {
+  const slots = [null, [P("string"), false], [P("string"), true], [P("number"), false], [U(P("string"), P("null")), true]];
+  const objs = [];
+  for (const a of slots) for (const b of slots) {
+    const props = [];
+    if (a) props.push(Prop("a", a[0], a[1]));
+    if (b) props.push(Prop("b", b[0], b[1]));
+    objs.push(ObjT(props));
+  }
+  const out = [];
+  for (let i = 0; i < objs.length; i++) for (let j = 0; j < objs.length; j++) {
+    if (i === j) continue;
+    out.push(I(objs[i], objs[j]));
+    if (i < j && (i + j) % 3 === 0) out.push(U(objs[i], objs[j]));
+  }
+  for (let i = 0; i < objs.length; i += 3) for (let j = 1; j < objs.length; j += 4) out.push(I(objs[i], objs[j], ObjT([Prop("c", P("boolean"), true)])));
+  return out;
+}
+
 // F4 strings & formats
 export function f4() {
   const out = [];
